@@ -21,5 +21,6 @@ def corpus():
 def main(tier, seed):
     n = {"quick": 600, "thorough": 12000}[tier]
     return storecheck.run("C01", tier, seed, PROFILE, n, corpus=corpus(),
-                          relevant=lambda o: o[0] in ("set", "get", "del", "merge", "clock"),
-                          rule="Observables compared: the result of every set/get/del/merge.")
+                          relevant=lambda o: o[0] in ("set", "get", "del", "merge", "clock"), big_values={"quick": 2, "thorough": 12}[tier],
+                          rule="Observables compared: the result of every set/get/del/merge. Plus implementation-only histories with one "
+                               "value of 1-40 MiB.")
